@@ -72,6 +72,7 @@ func run(cx *lib.Ctx) {
 		res.Distribution["gen:"+k] = v
 	}
 	corrParseX(cx)
+	heredocOracle(cx)
 }
 
 type caseInput struct {
